@@ -1,5 +1,245 @@
-(* Corr/StreamCorr.v — correspondence entry points (cross-format properties). *)
+(* Corr/StreamCorr.v — correspondence entry points of the cross-format
+   properties C06 (delivery independence, File = Reader) and C07 (failing
+   streams, failing writers).  Records and items are encoded exactly as in the
+   formats' own kinds (FastaCorr.v_fasta, FastqCorr.v_fastq, SamCorr.v_entry /
+   v_sam, BedCorr.v_bed, NewickCorr.val_of_tree / v_decoded).
+
+   c06_<fmt>       [bytes schedule withEOF (oracle)] -> items of Reader, EOF-terminated.
+                   The schedule (sizes of the successive Read results, 0 = a
+                   zero-length read) and withEOF (last data together with io.EOF)
+                   are NOT inputs of the model: any dependence of the
+                   implementation on them is a mismatch.
+   c06_crlf_<fmt>  [bytes (oracle)] -> items of Reader on the bytes with every LF
+                   replaced by CR LF ([Stream.crlf]), EOF-terminated.
+   c06_file_<fmt>  [bytes mode (oracle)] -> items of File; mode 0 plain file,
+                   1 gzip file named *.gz, 2 the path does not exist.
+                   sam: [items of File, items of FileHeader].
+   c07_read_<fmt>  [bytes k forever (oracle)] -> items of Reader on a stream that
+                   delivers the first k bytes and then fails (once / forever:
+                   not an input of the model).
+   c07_write_<fmt> [record k (oracle)] -> [i0 emitted] | [i1 emitted] | [i2]:
+                   Write into a writer that accepts k bytes; emitted = the
+                   bytes that reached the writer.
+   (oracle): the float oracle, for sam and newick only, as in their own kinds.
+   <fmt> = fasta fastq sam bed newick; for sam the reader is ReaderHeader, and
+   c06_samrec / c07_read_samrec are the same two kinds for sam.Reader. *)
 From Coq Require Import String.
 From Bio Require Import Base.
+From Bio.Model Require Fasta Fastq Sam Bed Newick.
+From Bio.Model Require Import Stream.
+From Bio.Corr Require FastaCorr FastqCorr SamCorr BedCorr NewickCorr.
 
-Definition corr_stream : list (string * (val -> val)) := [].
+Definition as_nat (v : val) : option nat :=
+  match v with VI z => if (z <? 0)%Z then None else Some (Z.to_nat z) | _ => None end.
+
+(* the schedule must be a list of non-negative sizes; it is otherwise ignored *)
+Definition sched_ok (v : val) : bool :=
+  match as_int_list v with Some l => forallb (fun z => (0 <=? z)%Z) l | None => false end.
+
+(* mode of a c06_file case: (opened, gz) *)
+Definition as_mode (v : val) : option (bool * bool) :=
+  match v with
+  | VI 0%Z => Some (true, false)
+  | VI 1%Z => Some (true, true)
+  | VI 2%Z => Some (false, false)
+  | _ => None
+  end.
+
+Definition v_written (r : outcome unit * bytes) : val :=
+  match fst r with
+  | Ok _ => VL [VI 0; VB (snd r)]
+  | Err => VL [VI 1; VB (snd r)]
+  | Panic => v_panic
+  end.
+
+(* ------------------------------------------------------------------ *)
+(* the five readers as functions of (oracle, bytes, term) to a val      *)
+
+Definition rd_fasta (s : bytes) (t : term) : val := v_items FastaCorr.v_fasta (Fasta.decode s t).
+Definition rd_fastq (s : bytes) (t : term) : val := v_items FastqCorr.v_fastq (Fastq.decode s t).
+Definition rd_bed (s : bytes) (t : term) : val := v_items BedCorr.v_bed (Bed.decode s t).
+Definition rd_samhdr (o : foracle) (s : bytes) (t : term) : val :=
+  v_items SamCorr.v_entry (Sam.reader_header o s t).
+Definition rd_sam (o : foracle) (s : bytes) (t : term) : val :=
+  v_items SamCorr.v_sam (Sam.reader o s t).
+Definition rd_newick (o : foracle) (s : bytes) (t : term) : val :=
+  NewickCorr.v_decoded (Newick.decode o s t).
+
+(* ------------------------------------------------------------------ *)
+(* C06: Reader under a schedule                                         *)
+
+Definition c06_plain (rd : bytes -> term -> val) (v : val) : val :=
+  match v with
+  | VL [VB s; sch; VI _] => if sched_ok sch then rd s TEOF else v_bad
+  | _ => v_bad
+  end.
+
+Definition c06_oracle (rd : foracle -> bytes -> term -> val) (v : val) : val :=
+  match v with
+  | VL [VB s; sch; VI _; ov] =>
+    match as_foracle ov with
+    | Some o => if sched_ok sch then rd o s TEOF else v_bad
+    | None => v_bad
+    end
+  | _ => v_bad
+  end.
+
+(* C06: Reader on the text with CR LF line terminators *)
+Definition c06_crlf_plain (rd : bytes -> term -> val) (v : val) : val :=
+  match v with
+  | VL [VB s] => rd (crlf s) TEOF
+  | _ => v_bad
+  end.
+
+Definition c06_crlf_oracle (rd : foracle -> bytes -> term -> val) (v : val) : val :=
+  match v with
+  | VL [VB s; ov] =>
+    match as_foracle ov with
+    | Some o => rd o (crlf s) TEOF
+    | None => v_bad
+    end
+  | _ => v_bad
+  end.
+
+(* ------------------------------------------------------------------ *)
+(* C06: File                                                            *)
+
+Definition v_open_error : val := VL [VL [VI 1]].          (* exactly one error item *)
+
+Definition c06_file_plain (rd : bytes -> term -> val) (v : val) : val :=
+  match v with
+  | VL [VB s; m] =>
+    match as_mode m with
+    | Some (opened, gz) => file_run v_open_error opened gz rd s
+    | None => v_bad
+    end
+  | _ => v_bad
+  end.
+
+Definition c06_file_sam (v : val) : val :=
+  match v with
+  | VL [VB s; m; ov] =>
+    match as_mode m, as_foracle ov with
+    | Some (opened, gz), Some o =>
+      VL [file_run v_open_error opened gz (rd_sam o) s;
+          file_run v_open_error opened gz (rd_samhdr o) s]
+    | _, _ => v_bad
+    end
+  | _ => v_bad
+  end.
+
+(* newick items travel inside an outcome ([i0 items]) *)
+Definition c06_file_newick (v : val) : val :=
+  match v with
+  | VL [VB s; m; ov] =>
+    match as_mode m, as_foracle ov with
+    | Some (opened, gz), Some o => file_run (v_ok v_open_error) opened gz (rd_newick o) s
+    | _, _ => v_bad
+    end
+  | _ => v_bad
+  end.
+
+(* ------------------------------------------------------------------ *)
+(* C07: Reader on a failing stream                                      *)
+
+Definition c07_read_plain (rd : bytes -> term -> val) (v : val) : val :=
+  match v with
+  | VL [VB s; kv; VI _] =>
+    match as_nat kv with
+    | Some k => rd (firstn k s) TErr
+    | None => v_bad
+    end
+  | _ => v_bad
+  end.
+
+Definition c07_read_oracle (rd : foracle -> bytes -> term -> val) (v : val) : val :=
+  match v with
+  | VL [VB s; kv; VI _; ov] =>
+    match as_nat kv, as_foracle ov with
+    | Some k, Some o => rd o (firstn k s) TErr
+    | _, _ => v_bad
+    end
+  | _ => v_bad
+  end.
+
+(* ------------------------------------------------------------------ *)
+(* C07: Write into a failing writer                                     *)
+
+Definition c07_write_fasta (v : val) : val :=
+  match v with
+  | VL [VL [VB n; VB s]; kv] =>
+    match as_nat kv with
+    | Some k => v_written (write_to_fasta k {| Fasta.name := n; Fasta.seq := s |})
+    | None => v_bad
+    end
+  | _ => v_bad
+  end.
+
+Definition c07_write_fastq (v : val) : val :=
+  match v with
+  | VL [rv; kv] =>
+    match FastqCorr.as_fastq rv, as_nat kv with
+    | Some r, Some k => v_written (write_to_fastq k r)
+    | _, _ => v_bad
+    end
+  | _ => v_bad
+  end.
+
+Definition c07_write_sam (v : val) : val :=
+  match v with
+  | VL [rv; kv; ov] =>
+    match SamCorr.as_sam rv, as_nat kv, as_foracle ov with
+    | Some r, Some k, Some o => v_written (write_to_sam o k r)
+    | _, _, _ => v_bad
+    end
+  | _ => v_bad
+  end.
+
+Definition c07_write_bed (v : val) : val :=
+  match v with
+  | VL [rv; kv] =>
+    match BedCorr.as_bed rv, as_nat kv with
+    | Some b, Some k => v_written (write_to_bed k b)
+    | _, _ => v_bad
+    end
+  | _ => v_bad
+  end.
+
+Definition c07_write_newick (v : val) : val :=
+  match v with
+  | VL [tv; kv; ov] =>
+    match NewickCorr.tree_of_val tv, as_nat kv, as_foracle ov with
+    | Some t, Some k, Some o => v_written (write_to_newick o k t)
+    | _, _, _ => v_bad
+    end
+  | _ => v_bad
+  end.
+
+Definition corr_stream : list (string * (val -> val)) :=
+  [ ("c06_fasta"%string, c06_plain rd_fasta);
+    ("c06_fastq"%string, c06_plain rd_fastq);
+    ("c06_sam"%string, c06_oracle rd_samhdr);
+    ("c06_samrec"%string, c06_oracle rd_sam);
+    ("c06_bed"%string, c06_plain rd_bed);
+    ("c06_newick"%string, c06_oracle rd_newick);
+    ("c06_crlf_fasta"%string, c06_crlf_plain rd_fasta);
+    ("c06_crlf_fastq"%string, c06_crlf_plain rd_fastq);
+    ("c06_crlf_sam"%string, c06_crlf_oracle rd_samhdr);
+    ("c06_crlf_bed"%string, c06_crlf_plain rd_bed);
+    ("c06_crlf_newick"%string, c06_crlf_oracle rd_newick);
+    ("c06_file_fasta"%string, c06_file_plain rd_fasta);
+    ("c06_file_fastq"%string, c06_file_plain rd_fastq);
+    ("c06_file_sam"%string, c06_file_sam);
+    ("c06_file_bed"%string, c06_file_plain rd_bed);
+    ("c06_file_newick"%string, c06_file_newick);
+    ("c07_read_fasta"%string, c07_read_plain rd_fasta);
+    ("c07_read_fastq"%string, c07_read_plain rd_fastq);
+    ("c07_read_sam"%string, c07_read_oracle rd_samhdr);
+    ("c07_read_samrec"%string, c07_read_oracle rd_sam);
+    ("c07_read_bed"%string, c07_read_plain rd_bed);
+    ("c07_read_newick"%string, c07_read_oracle rd_newick);
+    ("c07_write_fasta"%string, c07_write_fasta);
+    ("c07_write_fastq"%string, c07_write_fastq);
+    ("c07_write_sam"%string, c07_write_sam);
+    ("c07_write_bed"%string, c07_write_bed);
+    ("c07_write_newick"%string, c07_write_newick) ].
